@@ -47,6 +47,8 @@ def walk(n):
         x = stack.pop()
         yield x
         ks = kids(x)
+        if x.get("inl") is not None:
+            ks = ks + [x["inl"]]      # body of an unknown static helper grafted at its call (see graft_helpers)
         stack.extend(reversed(ks))
 
 
@@ -320,6 +322,9 @@ class Func:
             self.nodes[n["id"]] = n
             for c in kids(n):
                 self.parent[c["id"]] = n["id"]
+            if n.get("inl") is not None:
+                self.parent[n["inl"]["id"]] = n["id"]
+        self.helper = bool(d.get("helper"))
         self.blocks = {}
         cfg = d.get("cfg")
         self.entry = cfg["entry"]
@@ -369,7 +374,7 @@ class Func:
         return None
 
     def loc(self, n):
-        return "%s:%d" % (self.file, n.get("line", self.line))
+        return "%s:%d" % (self.file, (n or {}).get("line", self.line))
 
     def calls(self, name=None):
         return [n for n in walk(self.body) if n["k"] == "CallExpr" and (name is None or n.get("callee") == name
@@ -429,6 +434,122 @@ def eval_nodes(root):
     return out
 
 
+_KNOWN = None
+
+
+def known_functions():
+    global _KNOWN
+    if _KNOWN is None:
+        p = os.path.join(VERIF, "spec", "t_known_funcs.json")
+        _KNOWN = set(json.load(open(p))["functions"]) if os.path.exists(p) else None
+    return _KNOWN
+
+
+def _simple_arg(n):
+    """An argument expression that may be substituted for a parameter: no calls, no side effects."""
+    for x in walk(n):
+        k = x.get("k")
+        if k in ("CallExpr", "CompoundAssignOperator", "StmtExpr", "ConditionalOperator"):
+            return False
+        if k == "BinaryOperator" and x.get("op") in ("=", ","):
+            return False
+        if k == "UnaryOperator" and x.get("op") in ("++", "--"):
+            return False
+    return True
+
+
+def _clone(n, off, subst, suffix, lidoff):
+    if n is None:
+        return None
+    if isinstance(n, list):
+        return [_clone(x, off, subst, suffix, lidoff) for x in n]
+    if not isinstance(n, dict):
+        return n
+    if n.get("k") == "DeclRefExpr" and n.get("dk") == "param" and n.get("name") in subst:
+        rep = subst[n["name"]]
+        if rep is not None:
+            c = json.loads(json.dumps(rep))
+            # fresh ids for the copied argument expression
+            for x in walk(c):
+                x["id"] = x["id"] + off + 500000
+            return {"k": "ParenExpr", "id": n["id"] + off, "line": n.get("line"), "col": n.get("col"), "t": n.get("t"), "ct": n.get("ct"), "kids": [c]} \
+                if "ct" in n else {"k": "ParenExpr", "id": n["id"] + off, "line": n.get("line"), "col": n.get("col"), "t": n.get("t"), "kids": [c]}
+    out = {}
+    for k, v in n.items():
+        if k == "id":
+            out[k] = v + off
+        elif k in ("kids", "decls"):
+            out[k] = [_clone(x, off, subst, suffix, lidoff) for x in v]
+        elif k in ("init", "cond", "inc", "then", "else", "body", "inl") and isinstance(v, dict):
+            out[k] = _clone(v, off, subst, suffix, lidoff)
+        else:
+            out[k] = v
+    if out.get("k") == "DeclRefExpr" and out.get("dk") in ("local", "slocal", "param"):
+        out["name"] = out["name"] + suffix
+        if out.get("dk") == "param":
+            out["dk"] = "local"
+            out["lid"] = lidoff + 900 + out.get("idx", 0)
+        elif "lid" in out:
+            out["lid"] = out["lid"] + lidoff
+    if "name" in out and "k" not in out and "lid" in out:      # a declaration inside a DeclStmt
+        out["name"] = out["name"] + suffix
+        out["lid"] = out["lid"] + lidoff
+    return out
+
+
+def graft_helpers(fds, depth=3):
+    """Unknown static helpers are transparent.  A static function defined in a .c file whose name is not in
+    spec/t_known_funcs.json was extracted by a refactoring after the rules were written.  Its body is grafted (key
+    "inl") onto every call of it, with simple arguments substituted for its parameters and its locals renamed, so that
+    every rule that walks a function's tree sees the helper's stores and calls as the caller's own.  The helper itself is
+    marked and no longer listed as a function of its unit."""
+    known = known_functions()
+    if known is None:
+        return
+    byname = {fd["name"]: fd for fd in fds}
+    helpers = set(fd["name"] for fd in fds if fd.get("static") and fd.get("file", "").endswith(".c") and fd["name"] not in known
+                  and fd.get("body") is not None)
+    if not helpers:
+        return
+    for fd in fds:
+        if fd["name"] in helpers:
+            fd["helper"] = True
+    counter = [0]
+
+    def graft(body, stack):
+        maxid = max((x["id"] for x in walk(body)), default=0)
+        for n in list(walk(body)):
+            if n.get("k") == "CallExpr" and n.get("callee") in helpers and n.get("inl") is None and n["callee"] not in stack and len(stack) < depth:
+                g = byname[n["callee"]]
+                counter[0] += 1
+                off = (maxid + 1) + counter[0] * 1000000
+                args = n["kids"][1:]
+                stored = set()
+                for x in walk(g["body"]):
+                    if x.get("k") in ("BinaryOperator", "CompoundAssignOperator") and x.get("op", "").endswith("=") and x.get("op") not in ("==", "!=", "<=", ">="):
+                        l = strip(x["kids"][0])
+                        if l is not None and l.get("k") == "DeclRefExpr" and l.get("dk") == "param":
+                            stored.add(l["name"])
+                    if x.get("k") == "UnaryOperator" and x.get("op") in ("++", "--"):
+                        l = strip(x["kids"][0])
+                        if l is not None and l.get("k") == "DeclRefExpr" and l.get("dk") == "param":
+                            stored.add(l["name"])
+                subst = {}
+                for i, prm in enumerate(g["params"]):
+                    if i < len(args) and prm["name"] not in stored and _simple_arg(args[i]):
+                        subst[prm["name"]] = args[i]
+                    else:
+                        subst[prm["name"]] = None
+                inl = _clone(g["body"], off, subst, "__" + g["name"], counter[0] * 1000)
+                graft(inl, stack + [n["callee"]])
+                n["inl"] = inl
+                n["inl_params"] = [p["name"] for p in g["params"]]
+
+    for fd in fds:
+        if fd.get("body") is not None:
+            graft(fd["body"], [fd["name"]])
+
+
 class Program:
     def __init__(self, repo, lib_units, tool_units, facts_dir, flags):
         self.repo = repo
@@ -454,6 +575,7 @@ class Program:
                 self.globals[(u, g["name"])] = g
             for dc in d["decls"]:
                 self.decls.setdefault(dc["name"], dc)
+            graft_helpers(d["functions"])
             for fd in d["functions"]:
                 normalise_names(fd, u)
                 f = Func(fd, u)
@@ -489,8 +611,14 @@ class Program:
                 return r
         return None
 
-    def unit_funcs(self, unit):
-        return [f for (u, n), f in self.funcs.items() if u == unit]
+    def unit_funcs(self, unit, helpers=False):
+        """Functions of a unit.  Unknown static helpers (see graft_helpers) are analysed as part of their callers and
+        are listed only on request."""
+        return [f for (u, n), f in self.funcs.items() if u == unit and (helpers or not f.helper)]
+
+    def helper(self, name, unit):
+        f = self.funcs.get((unit, name))
+        return f if f is not None and f.helper else None
 
     def lib_funcs(self):
         """Distinct function definitions of the library (one per file:line)."""
